@@ -118,6 +118,16 @@ func NewExt(w *prove.World, fn *ssa.Function) *Ext {
 	if fn.Signature.Recv() != nil && len(fn.Params) > 0 {
 		e.Recv = fn.Params[0]
 		e.Roots[e.Recv] = ""
+		// a value receiver is spilled into a local: fields are reached through that copy
+		if _, isPtr := e.Recv.Type().Underlying().(*types.Pointer); !isPtr && e.Recv.Referrers() != nil {
+			for _, r := range *e.Recv.Referrers() {
+				if st, ok := r.(*ssa.Store); ok && st.Val == e.Recv {
+					if al, ok := st.Addr.(*ssa.Alloc); ok {
+						e.Roots[al] = ""
+					}
+				}
+			}
+		}
 	}
 	return e
 }
